@@ -332,6 +332,8 @@ def finish(ctx: Ctx, rule: str, assumptions=(), level="exploration", write=True)
             w = ctx.violations[key][0]
             print("  violation key=%s count=%d detail=%s" % (key, ctx.violation_counts[key], ascii(w["detail"][:300])))
             print("VIOLATION property=%s replay=%s" % (ctx.prop, replay_paths.get(key, "-")))
+        for r in inconclusive[:5]:
+            print("  (also inconclusive: %s)" % ascii(r[:600]))
         return 1
     if inconclusive:
         for r in inconclusive[:10]:
